@@ -1,2 +1,855 @@
-// Package c02: monitor for property C02 (see DESIGN.md section 2).
+// Package c02: committed history is append-only and immutable.
+//
+// Concurrent committers (sync/async/CommitWith, preconditions, RW txs, cancelled
+// and refused txs) and a maintenance goroutine run against one store, with
+// schedule perturbation at the verifhook points; a ledger records every
+// acknowledgement; an auditor and every quiescent point re-read all acknowledged
+// txs (live store, cold copy, after reopen) and compare; the chain is recomputed
+// with an independent Merkle reference; issued/committed notes are checked online.
 package c02
+
+import (
+	"bytes"
+	"context"
+	"encoding/json"
+	"errors"
+	"fmt"
+	"math/rand/v2"
+	"os"
+	"strings"
+	"sync"
+	"sync/atomic"
+	"time"
+
+	"github.com/codenotary/immudb/embedded/store"
+
+	"verifharness/internal/fw"
+	"verifharness/internal/hook"
+	"verifharness/internal/ledger"
+	"verifharness/internal/sth"
+)
+
+func init() { fw.RegisterMonitor("C02", "exploration", Run) }
+
+type config struct {
+	Name        string
+	Synced      bool
+	Embedded    bool
+	Prealloc    bool
+	HdrVersion  int
+	IOConc      int
+	MaxActive   int
+	FileSize    int
+	TxLogCache  int
+	ExtAllow    bool
+	Truncate    bool
+	Committers  int
+	VLogCache   int
+	MultiIndex  bool
+	WriteBuffer int
+}
+
+func (cf config) String() string {
+	return fmt.Sprintf("synced=%v embedded=%v prealloc=%v hdr=v%d ioconc=%d maxactive=%d filesize=%d txcache=%d extallow=%v truncate=%v committers=%d",
+		cf.Synced, cf.Embedded, cf.Prealloc, cf.HdrVersion, cf.IOConc, cf.MaxActive, cf.FileSize, cf.TxLogCache, cf.ExtAllow, cf.Truncate, cf.Committers)
+}
+
+func genConfig(r *rand.Rand, i int) config {
+	cf := config{
+		Synced:      i%2 == 0,
+		Embedded:    r.IntN(3) == 0,
+		Prealloc:    r.IntN(4) == 0,
+		HdrVersion:  r.IntN(2),
+		IOConc:      1 + r.IntN(4),
+		MaxActive:   []int{2, 3, 5, 16, 1000}[r.IntN(5)],
+		FileSize:    []int{512, 1024, 2048, 8192, 1 << 16}[r.IntN(5)],
+		TxLogCache:  []int{1, 2, 8, 1000}[r.IntN(4)],
+		ExtAllow:    i%4 == 3,
+		Committers:  4 + r.IntN(9),
+		VLogCache:   []int{0, 4, 64}[r.IntN(3)],
+		WriteBuffer: []int{1 << 10, 1 << 12, 1 << 16}[r.IntN(3)],
+	}
+	cf.Truncate = !cf.Embedded && !cf.ExtAllow && r.IntN(3) == 0
+	if cf.Embedded {
+		cf.IOConc = 1
+	}
+	if cf.ExtAllow {
+		// the precommit buffer is sized by MaxActiveTransactions; with external allowance the backlog is
+		// bounded only by it, and overflowing it ("buffer is full") wedges later commits (recorded in
+		// DESIGN.md as an out-of-scope observation), which would leave this configuration unexplored
+		cf.MaxActive = 1000
+	}
+	return cf
+}
+
+func (cf config) options() *store.Options {
+	o := sth.SmallOpts().
+		WithSynced(cf.Synced).WithSyncFrequency(time.Millisecond).
+		WithEmbeddedValues(cf.Embedded).WithPreallocFiles(cf.Prealloc).
+		WithWriteTxHeaderVersion(cf.HdrVersion).
+		WithMaxIOConcurrency(cf.IOConc).WithMaxConcurrency(16).
+		WithMaxActiveTransactions(cf.MaxActive).
+		WithFileSize(cf.FileSize).WithTxLogCacheSize(cf.TxLogCache).
+		WithVLogCacheSize(cf.VLogCache).
+		WithWriteBufferSize(cf.WriteBuffer).
+		WithMaxTxEntries(12).WithMaxKeyLen(48).WithMaxValueLen(600)
+	o.WithIndexOptions(o.IndexOpts.WithCompactionThld(2).WithFlushThld(50).WithSyncThld(200))
+	return o
+}
+
+type run struct {
+	c   *fw.Ctx
+	cf  config
+	dir string
+	st  *store.ImmuStore
+	led *ledger.Ledger
+
+	truncBelow atomic.Uint64
+
+	// online monitor of issued / committed notes (serialized by the store's own lock)
+	nmu       sync.Mutex
+	issued    map[uint64][32]byte
+	committed uint64
+	commAlh   map[uint64][32]byte
+
+	// samples of CommittedAlh / PrecommittedAlh taken during the concurrent phases
+	smu     sync.Mutex
+	samples map[uint64][32]byte
+
+	acks, refused, conflicts atomic.Int64
+	timeouts                 atomic.Int64
+	keySeq                   atomic.Uint64
+	stats                    map[string]*atomic.Int64
+}
+
+func (rn *run) viol(sig, detail string) {
+	rn.c.Violation(sig, fmt.Sprintf("[%s] %s", rn.cf, detail), map[string][]byte{"config.txt": []byte(rn.cf.String())})
+}
+
+func (rn *run) onNote(site string, a, b uint64, h [32]byte) {
+	rn.nmu.Lock()
+	defer rn.nmu.Unlock()
+	switch site {
+	case "store.issued":
+		if a <= rn.committed {
+			if prev, ok := rn.commAlh[a]; !ok || prev != h {
+				rn.viol("issued/id-at-or-below-committed-frontier", fmt.Sprintf("tx id %d issued again (alh %x) while the committed frontier is %d", a, h[:6], rn.committed))
+			}
+		}
+		rn.issued[a] = h
+	case "store.committed":
+		// every id in (old frontier, a] becomes committed with the alh last issued for it
+		for id := rn.committed + 1; id <= a; id++ {
+			if ih, ok := rn.issued[id]; ok {
+				rn.commAlh[id] = ih
+			}
+		}
+		if ih, ok := rn.issued[a]; ok && ih != h {
+			rn.viol("committed/alh-not-the-issued-one", fmt.Sprintf("tx %d committed with alh %x but issued with %x", a, h[:6], ih[:6]))
+		}
+		if a < rn.committed {
+			rn.viol("committed/frontier-went-back", fmt.Sprintf("committed frontier moved from %d to %d", rn.committed, a))
+		}
+		rn.committed = a
+	}
+}
+
+func (rn *run) open() error {
+	st, err := store.Open(rn.dir, rn.cf.options())
+	if err != nil {
+		return err
+	}
+	rn.st = st
+	if rn.cf.ExtAllow {
+		st.SetExternalCommitAllowance(true)
+	}
+	// after (re)open the committed frontier restarts from what the store reports
+	id, alh := st.CommittedAlh()
+	rn.nmu.Lock()
+	rn.committed = id
+	if id > 0 {
+		rn.commAlh[id] = alh
+	}
+	rn.nmu.Unlock()
+	return nil
+}
+
+func val(r *rand.Rand, tag string) []byte {
+	n := []int{0, 1, 9, 40, 200, 500}[r.IntN(6)]
+	b := make([]byte, n)
+	copy(b, tag)
+	for i := len(tag); i < n; i++ {
+		b[i] = byte(r.IntN(256))
+	}
+	return b
+}
+
+func kvmd(r *rand.Rand, ver int) *store.KVMetadata {
+	if ver == 0 || r.IntN(3) > 0 {
+		return nil
+	}
+	md := store.NewKVMetadata()
+	switch r.IntN(4) {
+	case 0:
+		md.AsDeleted(true)
+	case 1:
+		md.ExpiresAt(time.Date(2100, 1, 1, 0, 0, 0, 0, time.UTC))
+	case 2:
+		md.ExpiresAt(time.Date(2001, 1, 1, 0, 0, 0, 0, time.UTC))
+	case 3:
+		md.AsNonIndexable(true)
+	}
+	return md
+}
+
+func (rn *run) genEntries(r *rand.Rand, g int) []ledger.Entry {
+	n := 1 + r.IntN(6)
+	seen := map[string]bool{}
+	var es []ledger.Entry
+	for len(es) < n {
+		k := fmt.Sprintf("k%02d", r.IntN(24))
+		if r.IntN(4) == 0 {
+			k = fmt.Sprintf("u%d-%d", g, rn.keySeq.Add(1))
+		}
+		if seen[k] {
+			continue
+		}
+		seen[k] = true
+		md := kvmd(r, rn.cf.HdrVersion)
+		es = append(es, ledger.Entry{Key: []byte(k), Value: val(r, fmt.Sprintf("g%d:", g)), MD: ledger.MDBytes(md)})
+	}
+	return es
+}
+
+func mdFrom(b []byte, r *rand.Rand) *store.KVMetadata {
+	if b == nil {
+		return nil
+	}
+	// rebuild the metadata object from the generated flags (bytes are what the ledger keeps)
+	md := store.NewKVMetadata()
+	for _, cand := range candidates() {
+		if bytes.Equal(cand.Bytes(), b) {
+			return cand
+		}
+	}
+	return md
+}
+
+func candidates() []*store.KVMetadata {
+	var out []*store.KVMetadata
+	a := store.NewKVMetadata()
+	a.AsDeleted(true)
+	b := store.NewKVMetadata()
+	b.ExpiresAt(time.Date(2100, 1, 1, 0, 0, 0, 0, time.UTC))
+	c := store.NewKVMetadata()
+	c.ExpiresAt(time.Date(2001, 1, 1, 0, 0, 0, 0, time.UTC))
+	d := store.NewKVMetadata()
+	d.AsNonIndexable(true)
+	return append(out, a, b, c, d)
+}
+
+var expectedErrs = []error{
+	store.ErrMaxActiveTransactionsLimitExceeded, store.ErrTxReadConflict, store.ErrPreconditionFailed,
+	store.ErrNoEntriesProvided, store.ErrDuplicatedKey, store.ErrMaxTxEntriesLimitExceeded,
+	store.ErrAlreadyClosed, context.Canceled, context.DeadlineExceeded, store.ErrMaxConcurrencyLimitExceeded,
+	store.ErrKeyNotFound, store.ErrMaxValueLenExceeded, store.ErrMaxKeyLenExceeded, store.ErrNullKey, store.ErrWriteStalling,
+}
+
+func expected(err error) bool {
+	for _, e := range expectedErrs {
+		if errors.Is(err, e) {
+			return true
+		}
+	}
+	return false
+}
+
+// one committer operation; returns the kind executed
+func (rn *run) commitOp(ctx context.Context, r *rand.Rand, g int) string {
+	st := rn.st
+	es := rn.genEntries(r, g)
+	kind := []string{"commit", "commit", "async", "commitwith", "precond-pass", "precond-fail", "rw", "cancel", "oversize", "dupkey", "empty", "txmd"}[r.IntN(12)]
+	ack := func(hdr *store.TxHeader, err error, entries []ledger.Entry) {
+		if err != nil {
+			if hdr != nil && !expected(err) {
+				// commit reported with a header and an error: committed but e.g. indexing wait failed
+				rn.c.Count("ack_with_error", 1)
+			}
+			if !expected(err) {
+				// a failed commit is not forbidden by the property: recorded, not judged
+				rn.c.Count("unexpected_commit_errors", 1)
+				rn.c.Note(fmt.Sprintf("%s failed with an undocumented error: %v", kind, err))
+			}
+			if errors.Is(err, store.ErrTxReadConflict) {
+				rn.conflicts.Add(1)
+			}
+			rn.refused.Add(1)
+			return
+		}
+		if e := rn.led.Ack(hdr, entries); e != nil {
+			rn.viol("ack/id-reassigned", e.Error())
+		}
+		rn.acks.Add(1)
+	}
+	setAll := func(tx *store.OngoingTx, entries []ledger.Entry) error {
+		for _, e := range entries {
+			if err := tx.Set(e.Key, mdFrom(e.MD, r), e.Value); err != nil {
+				return err
+			}
+		}
+		return nil
+	}
+	switch kind {
+	case "commit", "async", "txmd", "precond-pass", "precond-fail", "cancel", "oversize", "dupkey", "empty":
+		tx, err := st.NewWriteOnlyTx(ctx)
+		if err != nil {
+			ack(nil, err, nil)
+			return kind
+		}
+		switch kind {
+		case "oversize":
+			es = es[:0]
+			for i := 0; i < 13; i++ {
+				es = append(es, ledger.Entry{Key: []byte(fmt.Sprintf("o%d-%d", g, i)), Value: []byte("x")})
+			}
+		case "empty":
+			es = nil
+		case "txmd":
+			if rn.cf.HdrVersion == 1 {
+				md := store.NewTxMetadata()
+				md.WithExtra([]byte(fmt.Sprintf("extra-%d", g)))
+				tx.WithMetadata(md)
+			}
+		case "precond-pass":
+			tx.AddPrecondition(&store.PreconditionKeyMustNotExist{Key: []byte(fmt.Sprintf("never-%d-%d", g, rn.keySeq.Add(1)))})
+		case "precond-fail":
+			tx.AddPrecondition(&store.PreconditionKeyMustExist{Key: []byte(fmt.Sprintf("never-%d-%d", g, rn.keySeq.Add(1)))})
+		}
+		if err := setAll(tx, es); err != nil {
+			tx.Cancel()
+			ack(nil, err, nil)
+			return kind
+		}
+		if kind == "dupkey" && len(es) > 0 {
+			if err := tx.Set(es[0].Key, nil, []byte("dup")); err == nil {
+				// a second Set of the same key inside one tx replaces the first: mirror it
+				es[0].Value, es[0].MD = []byte("dup"), nil
+			}
+		}
+		if kind == "cancel" {
+			tx.Cancel()
+			return kind
+		}
+		var hdr *store.TxHeader
+		if kind == "async" {
+			hdr, err = tx.AsyncCommit(ctx)
+		} else {
+			hdr, err = tx.Commit(ctx)
+		}
+		if kind == "precond-fail" && err == nil {
+			rn.viol("precondition/applied-although-false", "a tx with KeyMustExist on a key never written was committed")
+		}
+		if (kind == "oversize" || kind == "empty") && err == nil {
+			rn.viol("commit/refusal-expected", kind+" tx was committed")
+		}
+		ack(hdr, err, es)
+	case "commitwith":
+		hdr, err := st.CommitWith(ctx, func(txID uint64, index store.KeyIndex) ([]*store.EntrySpec, []store.Precondition, error) {
+			specs := make([]*store.EntrySpec, len(es))
+			for i, e := range es {
+				specs[i] = &store.EntrySpec{Key: e.Key, Metadata: mdFrom(e.MD, r), Value: e.Value}
+			}
+			return specs, nil, nil
+		}, r.IntN(2) == 0)
+		ack(hdr, err, es)
+	case "rw":
+		tx, err := st.NewTx(ctx, store.DefaultTxOptions())
+		if err != nil {
+			ack(nil, err, nil)
+			return kind
+		}
+		for i := 0; i < 1+r.IntN(3); i++ {
+			tx.Get(ctx, []byte(fmt.Sprintf("k%02d", r.IntN(24))))
+		}
+		if err := setAll(tx, es); err != nil {
+			tx.Cancel()
+			ack(nil, err, nil)
+			return kind
+		}
+		hdr, err := tx.Commit(ctx)
+		ack(hdr, err, es)
+	}
+	return kind
+}
+
+func (rn *run) sample() {
+	id, alh := rn.st.CommittedAlh()
+	if id == 0 {
+		return
+	}
+	rn.smu.Lock()
+	if prev, ok := rn.samples[id]; ok && prev != alh {
+		rn.smu.Unlock()
+		rn.viol("state/two-alh-for-one-id", fmt.Sprintf("CommittedAlh reported tx %d with two different hashes", id))
+		return
+	}
+	rn.samples[id] = alh
+	rn.smu.Unlock()
+}
+
+// concurrent phase: committers + maintenance + auditor until nOps commit attempts were made
+func (rn *run) concurrentPhase(round int, nOps int) {
+	ctx, cancel := context.WithCancel(context.Background())
+	defer cancel()
+	var wg sync.WaitGroup
+	var left atomic.Int64
+	left.Store(int64(nOps))
+	stop := make(chan struct{})
+	kinds := sync.Map{}
+	for g := 0; g < rn.cf.Committers; g++ {
+		wg.Add(1)
+		go func(g int) {
+			defer wg.Done()
+			r := fw.NewRand(rn.c.Seed, fmt.Sprintf("c02/%s/round%d/committer%d", rn.cf.Name, round, g))
+			for left.Add(-1) >= 0 {
+				// generous per-operation limit: its firing decides nothing by itself, it only lets
+				// the run reach the audits when the store stopped making progress
+				octx, ocancel := context.WithTimeout(ctx, 20*time.Second)
+				k := rn.commitOp(octx, r, g)
+				if octx.Err() != nil {
+					rn.c.Count("op_timeouts", 1)
+					if rn.timeouts.Add(1) >= 3 {
+						left.Store(0)
+					}
+				}
+				ocancel()
+				kinds.Store(k, true)
+			}
+		}(g)
+	}
+	var bg sync.WaitGroup
+	// allower (external commit allowance): allows everything precommitted, with a lag
+	if rn.cf.ExtAllow {
+		bg.Add(1)
+		go func() {
+			defer bg.Done()
+			for {
+				select {
+				case <-stop:
+					rn.st.AllowCommitUpto(rn.st.LastPrecommittedTxID())
+					return
+				default:
+				}
+				rn.st.AllowCommitUpto(rn.st.LastPrecommittedTxID())
+				time.Sleep(200 * time.Microsecond)
+			}
+		}()
+	}
+	// maintenance
+	bg.Add(1)
+	go func() {
+		defer bg.Done()
+		r := fw.NewRand(rn.c.Seed, fmt.Sprintf("c02/%s/round%d/maint", rn.cf.Name, round))
+		for {
+			select {
+			case <-stop:
+				return
+			default:
+			}
+			var err error
+			op := r.IntN(5)
+			switch op {
+			case 0:
+				err = rn.st.FlushIndexes(float32(r.IntN(101)), r.IntN(2) == 0)
+			case 1:
+				err = rn.st.CompactIndexes()
+			case 2:
+				err = rn.st.Sync()
+			case 3:
+				if rn.cf.Truncate {
+					if n := rn.led.Max(); n > 4 {
+						cut := 1 + r.Uint64N(n/2)
+						// values below the cut may become unreadable from now on
+						for {
+							old := rn.truncBelow.Load()
+							if cut <= old || rn.truncBelow.CompareAndSwap(old, cut) {
+								break
+							}
+						}
+						err = rn.st.TruncateUptoTx(cut)
+						if err != nil && !errors.Is(err, store.ErrTxNotFound) && !strings.Contains(err.Error(), "no") {
+							rn.c.Count("truncate_errors", 1)
+						}
+						err = nil
+					}
+				}
+			case 4:
+				rn.sample()
+			}
+			_ = err
+			rn.c.Count("maintenance_ops", 1)
+			time.Sleep(time.Duration(r.IntN(300)) * time.Microsecond)
+		}
+	}()
+	// auditor
+	bg.Add(1)
+	go func() {
+		defer bg.Done()
+		r := fw.NewRand(rn.c.Seed, fmt.Sprintf("c02/%s/round%d/auditor", rn.cf.Name, round))
+		tx := store.NewTx(12, 48)
+		for {
+			select {
+			case <-stop:
+				return
+			default:
+			}
+			n := rn.led.Max()
+			if n == 0 {
+				time.Sleep(100 * time.Microsecond)
+				continue
+			}
+			id := 1 + r.Uint64N(n)
+			for _, p := range rn.led.AuditTx(rn.st, tx, id, ledger.AuditOpts{TruncatedBelow: rn.truncBelow.Load(), Export: r.IntN(2) == 0}) {
+				rn.viol("concurrent-audit/"+p.Sig, p.Detail)
+			}
+			rn.c.Eval(1)
+			rn.sample()
+		}
+	}()
+	wg.Wait()
+	close(stop)
+	bg.Wait()
+	kinds.Range(func(k, _ any) bool { rn.c.Distinct("op/" + k.(string) + "/" + rn.cf.Name); return true })
+}
+
+// backlog scenario (external commit allowance): K txs precommitted, j allowed, the rest discarded.
+func (rn *run) backlogPhase(round int) {
+	r := fw.NewRand(rn.c.Seed, fmt.Sprintf("c02/%s/round%d/backlog", rn.cf.Name, round))
+	st := rn.st
+	base := st.LastPrecommittedTxID()
+	st.AllowCommitUpto(base)
+	wctx, wcancel := context.WithTimeout(context.Background(), 20*time.Second)
+	err := st.WaitForTx(wctx, base, false)
+	wcancel()
+	if err != nil {
+		rn.c.Count("op_timeouts", 1)
+		rn.timeouts.Add(1)
+		return
+	}
+	K := 2 + r.IntN(4)
+	if rn.cf.Synced && K >= rn.cf.MaxActive {
+		K = rn.cf.MaxActive - 1
+	}
+	if K < 2 {
+		return
+	}
+	j := r.IntN(K)
+	type res struct {
+		hdr *store.TxHeader
+		err error
+		es  []ledger.Entry
+	}
+	out := make(chan res, K)
+	ctx, cancel := context.WithCancel(context.Background())
+	for i := 0; i < K; i++ {
+		es := rn.genEntries(r, 100+i)
+		go func() {
+			tx, err := st.NewWriteOnlyTx(ctx)
+			if err != nil {
+				out <- res{nil, err, es}
+				return
+			}
+			for _, e := range es {
+				tx.Set(e.Key, mdFrom(e.MD, r), e.Value)
+			}
+			hdr, err := tx.Commit(ctx)
+			out <- res{hdr, err, es}
+		}()
+	}
+	// wait until all K are precommitted (bounded polling; otherwise give up this scenario)
+	ok := false
+	for i := 0; i < 20000; i++ {
+		if st.LastPrecommittedTxID() >= base+uint64(K) {
+			ok = true
+			break
+		}
+		time.Sleep(100 * time.Microsecond)
+	}
+	if !ok {
+		cancel()
+		for i := 0; i < K; i++ {
+			<-out
+		}
+		st.DiscardPrecommittedTxsSince(base + 1)
+		rn.c.Count("backlog_not_reached", 1)
+		return
+	}
+	st.AllowCommitUpto(base + uint64(j))
+	got := 0
+	for got < j {
+		x := <-out
+		got++
+		if x.err != nil {
+			rn.viol("backlog/allowed-commit-failed", fmt.Sprintf("allowed tx failed: %v", x.err))
+			continue
+		}
+		if x.hdr.ID > base+uint64(j) {
+			rn.viol("backlog/commit-beyond-allowance", fmt.Sprintf("tx %d acknowledged while commits were allowed only up to %d", x.hdr.ID, base+uint64(j)))
+		}
+		if e := rn.led.Ack(x.hdr, x.es); e != nil {
+			rn.viol("ack/id-reassigned", e.Error())
+		}
+		rn.acks.Add(1)
+	}
+	// the remaining K-j must not be acknowledged; cancel their waiters, then discard
+	cancel()
+	for ; got < K; got++ {
+		x := <-out
+		if x.err == nil {
+			rn.viol("backlog/commit-beyond-allowance", fmt.Sprintf("tx %d acknowledged without allowance (allowed up to %d)", x.hdr.ID, base+uint64(j)))
+			rn.led.Ack(x.hdr, x.es)
+		}
+	}
+	cid := st.LastCommittedTxID()
+	if cid != base+uint64(j) {
+		rn.viol("backlog/committed-frontier", fmt.Sprintf("committed frontier %d, allowed %d", cid, base+uint64(j)))
+	}
+	// discarding at or below the committed frontier must be refused, and a refusal must change nothing
+	pid0, palh0 := st.PrecommittedAlh()
+	if _, err := st.DiscardPrecommittedTxsSince(cid); err == nil && cid > 0 {
+		rn.viol("discard/accepted-committed-tx", fmt.Sprintf("DiscardPrecommittedTxsSince(%d) accepted although %d is committed", cid, cid))
+	} else if pid1, palh1 := st.PrecommittedAlh(); cid > 0 && (pid1 != pid0 || palh1 != palh0 || st.LastCommittedTxID() != cid) {
+		rn.viol("discard/refused-with-effect", fmt.Sprintf("DiscardPrecommittedTxsSince(%d) was refused (%v) but moved the precommitted frontier from %d to %d", cid, err, pid0, pid1))
+	}
+	n, err := st.DiscardPrecommittedTxsSince(cid + 1)
+	if err != nil {
+		rn.viol("discard/error", fmt.Sprintf("DiscardPrecommittedTxsSince(%d): %v", cid+1, err))
+	}
+	rn.c.Eval(1)
+	rn.c.Distinct(fmt.Sprintf("backlog/K=%d/allowed=%d/discarded=%d/%s", K, j, n, rn.cf.Name))
+	if st.LastPrecommittedTxID() != cid {
+		rn.viol("discard/precommitted-frontier", fmt.Sprintf("after discarding, precommitted frontier %d, committed %d", st.LastPrecommittedTxID(), cid))
+	}
+}
+
+// quiescent audit of everything acknowledged, against the live store and a cold copy
+func (rn *run) quiescentAudit(label string, cold bool) {
+	st := rn.st
+	if rn.cf.ExtAllow {
+		st.AllowCommitUpto(st.LastPrecommittedTxID())
+	}
+	if err := st.Sync(); err != nil && !errors.Is(err, store.ErrAlreadyClosed) {
+		rn.c.Count("sync_errors", 1)
+	}
+	rn.auditStore(st, label+"/live")
+	if cold && rn.cf.Synced {
+		// only a synced store promises that what was acknowledged is already in the files
+		cp := rn.c.Dir("cold")
+		defer os.RemoveAll(cp)
+		if err := sth.CopyDir(rn.dir, cp); err != nil {
+			rn.c.Inconclusive("copy: " + err.Error())
+			return
+		}
+		cs, err := store.Open(cp, rn.cf.options())
+		if err != nil {
+			rn.viol("coldcopy/open-failed", fmt.Sprintf("a synced copy of the store does not open: %v", err))
+			return
+		}
+		rn.auditStore(cs, label+"/cold-copy")
+		cs.Close()
+	}
+}
+
+// a copy of the cleanly closed store, opened by a fresh instance (cold caches)
+func (rn *run) coldAudit(label string) {
+	cp := rn.c.Dir("cold")
+	defer os.RemoveAll(cp)
+	if err := sth.CopyDir(rn.dir, cp); err != nil {
+		rn.c.Inconclusive("copy: " + err.Error())
+		return
+	}
+	cs, err := store.Open(cp, rn.cf.options())
+	if err != nil {
+		rn.viol("coldcopy/open-failed", fmt.Sprintf("a copy of the cleanly closed store does not open: %v", err))
+		return
+	}
+	rn.auditStore(cs, label)
+	cs.Close()
+}
+
+func (rn *run) auditStore(st *store.ImmuStore, label string) {
+	ids := rn.led.IDs()
+	n := st.LastCommittedTxID()
+	if len(ids) > 0 && ids[len(ids)-1] > n {
+		rn.viol(label+"/acknowledged-beyond-committed", fmt.Sprintf("acknowledged tx %d but the committed frontier is %d", ids[len(ids)-1], n))
+	}
+	tx := store.NewTx(12, 48)
+	for _, id := range ids {
+		for _, p := range rn.led.AuditTx(st, tx, id, ledger.AuditOpts{TruncatedBelow: rn.truncBelow.Load(), Export: true}) {
+			rn.viol(label+"/"+p.Sig, p.Detail)
+		}
+		rn.c.Eval(1)
+	}
+	// the whole committed range: dense, chained, linked; reported state = last alh
+	hdrs := make([]*store.TxHeader, n)
+	for id := uint64(1); id <= n; id++ {
+		h, err := st.ReadTxHeader(id, false, false)
+		if err != nil {
+			rn.viol(label+"/chain/unreadable", fmt.Sprintf("ReadTxHeader(%d) inside the committed range 1..%d: %v", id, n, err))
+			return
+		}
+		hdrs[id-1] = h
+	}
+	for _, p := range ledger.ChainProblems(hdrs) {
+		rn.viol(label+"/"+p.Sig, p.Detail)
+	}
+	rn.c.Eval(int(n))
+	cid, calh := st.CommittedAlh()
+	if cid != n || (n > 0 && calh != hdrs[n-1].Alh()) {
+		rn.viol(label+"/state/not-last-alh", fmt.Sprintf("CommittedAlh reports (%d, %x); last committed tx is %d with alh %x", cid, calh[:6], n, hdrs[max(int(n), 1)-1].Alh()))
+	}
+	// ascending and descending TxReader agree with the headers
+	for _, desc := range []bool{false, true} {
+		if n == 0 {
+			break
+		}
+		init := uint64(1)
+		if desc {
+			init = n
+		}
+		rd, err := st.NewTxReader(init, desc, store.NewTx(12, 48))
+		if err != nil {
+			rn.viol(label+"/txreader/error", err.Error())
+			continue
+		}
+		cnt := uint64(0)
+		for {
+			t, err := rd.Read()
+			if err != nil {
+				if !errors.Is(err, store.ErrNoMoreEntries) {
+					rn.viol(label+"/txreader/error", fmt.Sprintf("TxReader(desc=%v) after %d txs: %v", desc, cnt, err))
+				}
+				break
+			}
+			cnt++
+			want := init + cnt - 1
+			if desc {
+				want = init - (cnt - 1)
+			}
+			if t.Header().ID != want || t.Header().Alh() != hdrs[want-1].Alh() {
+				rn.viol(label+"/txreader/differs", fmt.Sprintf("TxReader(desc=%v) position %d returned tx %d", desc, cnt, t.Header().ID))
+				break
+			}
+		}
+		if cnt != n {
+			rn.viol(label+"/txreader/count", fmt.Sprintf("TxReader(desc=%v) returned %d of %d txs", desc, cnt, n))
+		}
+		rn.c.Eval(1)
+	}
+	// retrospective check of every sampled state
+	rn.smu.Lock()
+	for id, alh := range rn.samples {
+		if id <= n && hdrs[id-1].Alh() != alh {
+			rn.viol(label+"/state/sample-not-on-chain", fmt.Sprintf("CommittedAlh once reported (%d, %x) but tx %d has alh %x", id, alh[:6], id, hdrs[id-1].Alh()))
+		}
+	}
+	rn.smu.Unlock()
+}
+
+func runConfig(c *fw.Ctx, cf config, rounds, opsPerRound int) {
+	rn := &run{c: c, cf: cf, dir: c.Dir("c02-" + cf.Name), led: ledger.New(), issued: map[uint64][32]byte{}, commAlh: map[uint64][32]byte{}, samples: map[uint64][32]byte{}}
+	defer os.RemoveAll(rn.dir)
+	current.Store(rn)
+	defer current.Store(nil)
+	if err := rn.open(); err != nil {
+		c.Inconclusive("open: " + err.Error())
+		return
+	}
+	for round := 0; round < rounds; round++ {
+		rn.concurrentPhase(round, opsPerRound)
+		if cf.ExtAllow {
+			rn.quiescentAudit(fmt.Sprintf("round%d-pre-backlog", round), false)
+			rn.backlogPhase(round)
+		}
+		rn.quiescentAudit("quiescent", round%2 == 1)
+		if round < rounds-1 {
+			// close / reopen cycle
+			if err := rn.st.Close(); err != nil {
+				rn.viol("close/error", err.Error())
+			}
+			rn.coldAudit("closed-copy")
+			rn.nmu.Lock()
+			rn.issued = map[uint64][32]byte{}
+			rn.nmu.Unlock()
+			if err := rn.open(); err != nil {
+				rn.viol("reopen/failed", fmt.Sprintf("store does not reopen after a clean close: %v", err))
+				return
+			}
+			rn.quiescentAudit("after-reopen", false)
+			c.Distinct("reopen/" + cf.Name)
+		}
+	}
+	rn.st.Close()
+	if rn.timeouts.Load() > 0 {
+		c.Inconclusive(fmt.Sprintf("[%s] %d operations did not return within 20 s (store stopped making progress)", cf, rn.timeouts.Load()))
+	}
+	c.Count("acks", rn.acks.Load())
+	c.Count("refused", rn.refused.Load())
+	c.Count("read_conflicts", rn.conflicts.Load())
+	c.Sample(map[string]any{"config": cf.String(), "acknowledged": rn.led.Len(), "refused_or_failed": rn.refused.Load(), "states_sampled": len(rn.samples)})
+}
+
+type caseSpec struct {
+	Cf     config
+	Rounds int
+	Ops    int
+}
+
+func init() {
+	fw.RegisterIsolated("c02-config", func(c *fw.Ctx, data []byte) {
+		var cs caseSpec
+		if err := json.Unmarshal(data, &cs); err != nil {
+			c.Inconclusive("bad case: " + err.Error())
+			return
+		}
+		h := hook.Install(&hook.Config{Seed: c.Seed + int64(len(cs.Cf.Name)), Perturb: 0.25, MaxSleep: 400 * time.Microsecond,
+			OnNote: func(site string, a, b uint64, hh [32]byte) {
+				if rn := current.Load(); rn != nil {
+					rn.onNote(site, a, b, hh)
+				}
+			}})
+		defer hook.Uninstall()
+		runConfig(c, cs.Cf, cs.Rounds, cs.Ops)
+		hits := h.Hits()
+		hm := map[string]uint64{}
+		for k, v := range hits {
+			hm[k] = v
+		}
+		c.Set("hook_site_hits", hm)
+		for _, tr := range h.Interleavings() {
+			c.Distinct("interleaving/" + tr)
+		}
+		if hits["store.precommit.beforeLock"] == 0 || hits["note:store.issued"] == 0 {
+			c.Inconclusive("hook sites never reached: was the harness built with -tags verif?")
+		}
+	})
+}
+
+func Run(c *fw.Ctx) {
+	c.Rule = "PRNG store configurations × rounds of concurrent committers (12 op kinds) + maintenance + auditor, with hook-point perturbation, one child process per configuration; an evaluation is one acknowledged tx re-read and compared (or one chain/state/TxReader check); distinct = (op kind × configuration), backlog shapes, reopen cycles and hook-site interleaving transitions observed"
+	c.Assume("only acknowledged commits are required to persist; values below a truncation cut may become unreadable, never different")
+	c.Assume("SHA-256 and the RFC 6962 tree definition for BlRoot")
+	r := c.Rand("c02/configs")
+	nconf := c.N(8, 64)
+	var cases [][]byte
+	for i := 0; i < nconf; i++ {
+		cf := genConfig(r, i)
+		cf.Name = fmt.Sprintf("cfg%d", i)
+		b, _ := json.Marshal(caseSpec{Cf: cf, Rounds: c.N(3, 4), Ops: c.N(220, 1200)})
+		cases = append(cases, b)
+	}
+	c.RunIsolated("c02-config", cases, fw.CasesOpts{Workers: 8, CaseTimout: 10 * time.Minute})
+}
+
+// run whose store is live (notes are routed to it)
+var current atomic.Pointer[run]
